@@ -50,7 +50,7 @@ def s16i (x : Int) : Int := s16 (x % 65536).toNat
 def s32i (x : Int) : Int := s32 (x % 4294967296).toNat
 
 /-- `a | b` on `int` operands (two's complement, 32 bit) -/
-def orInt (a b : Int) : Int := s32 (Nat.lor (u32i a) (u32i b))
+def orInt (a b : Int) : Int := s32 (u32i a ||| u32i b)
 
 inductive Fault where
   /-- NULL dereference or access outside an object (SIGSEGV / ASan / UBSan) -/
@@ -128,36 +128,40 @@ def readBurst (cap : Nat) (mem : List Nat) : (i n : Nat) → Except Fault (List 
       let rest ← readBurst cap mem (i + 1) n
       pure (s8 b :: rest)
 
+/-- `switch (read_len)` after `read_len -= TRXDv0_HDR_LEN`: the burst length, `none` = default
+branch (`return -EINVAL`) -/
+def burstLenSwitch (rl : Nat) : Option Nat :=
+  if rl = nbitsGmsk + 2 ∨ rl = nbits8psk + 2 then some (rl - 2)     -- read_len -= 2
+  else if rl = nbitsGmsk ∨ rl = nbits8psk then some rl
+  else none
+
+/-- from `bi = (struct trxcon_phyif_burst_ind) { ... }` to the end of `trx_data_rx_cb` -/
+def cRxInd (buf : List Nat) (fnAdvance b0 burstLen : Nat) : Except Fault RxOut := do
+  let cap := trxdBufSize
+  let tn := b0 &&& 7
+  let fn ← load32be buf cap 1
+  let b5 ← rd buf cap 5
+  let rssi := s8i (-(s8 b5))                          -- .rssi = -(int8_t) buf[5]
+  let b6 ← rd buf cap 6
+  let b7 ← rd buf cap 7
+  let toa := s16i (orInt (s16 (b6 <<< 8)) (b7 : Int))   -- .toa256 = (int16_t) (buf[6] << 8) | buf[7]
+  -- Convert ubits {254..0} to sbits {-127..127} in-place
+  let mem ← convLoop cap buf 0 burstLen
+  if fn ≥ gsmTdmaHyperframe then return .ret (-eINVAL)
+  let burst ← readBurst cap mem 0 burstLen            -- the stub copies bi.burst[0 .. burst_len)
+  -- rts.fn = GSM_TDMA_FN_SUM(bi.fn, trx->fn_advance)  (uint32_t arithmetic)
+  let rtsFn := u32 (fn + u32 fnAdvance) % gsmTdmaHyperframe
+  return .ind ⟨tn, fn, rssi, toa, burst⟩ ⟨rtsFn, tn⟩
+
 def cRxBody (buf : List Nat) (fnAdvance : Nat) : Except Fault RxOut := do
   let cap := trxdBufSize
-  let readLen := buf.length
   -- if ((buf[0] >> 4) != 0) return -ENOTSUP;
   let b0 ← rd buf cap 0
   if b0 / 16 ≠ 0 then return .ret (-eNOTSUP)
   -- read_len -= TRXDv0_HDR_LEN; switch (read_len)
-  let rl := readLen - trxdv0HdrLen
-  let burstLen ←
-    if rl = nbitsGmsk + 2 ∨ rl = nbits8psk + 2 then pure (some (rl - 2))
-    else if rl = nbitsGmsk ∨ rl = nbits8psk then pure (some rl)
-    else pure none
-  match burstLen with
+  match burstLenSwitch (buf.length - trxdv0HdrLen) with
   | none => return .ret (-eINVAL)
-  | some burstLen =>
-    -- bi = (struct trxcon_phyif_burst_ind) { ... }
-    let tn := b0 &&& 7
-    let fn ← load32be buf cap 1
-    let b5 ← rd buf cap 5
-    let rssi := s8i (-(s8 b5))                          -- .rssi = -(int8_t) buf[5]
-    let b6 ← rd buf cap 6
-    let b7 ← rd buf cap 7
-    let toa := s16i (orInt (s16 (b6 <<< 8)) (b7 : Int))   -- .toa256 = (int16_t) (buf[6] << 8) | buf[7]
-    -- Convert ubits {254..0} to sbits {-127..127} in-place
-    let mem ← convLoop cap buf 0 burstLen
-    if fn ≥ gsmTdmaHyperframe then return .ret (-eINVAL)
-    let burst ← readBurst cap mem 0 burstLen
-    -- rts.fn = GSM_TDMA_FN_SUM(bi.fn, trx->fn_advance)  (uint32_t arithmetic)
-    let rtsFn := u32 (fn + u32 fnAdvance) % gsmTdmaHyperframe
-    return .ind ⟨tn, fn, rssi, toa, burst⟩ ⟨rtsFn, tn⟩
+  | some burstLen => cRxInd buf fnAdvance b0 burstLen
 
 /-- `trx_data_rx_cb` for the datagram `d` waiting on the data socket -/
 def cRx (d : List Nat) (fnAdvance : Nat) : RxOut :=
